@@ -286,6 +286,20 @@ func C02(c *core.Ctx) {
 	c02AliasedWorkingValue(c)
 	c02EveryLineMapped(c)
 	c02WorkingPrecision(c)
+	// R11: the summary is rebuilt from the lines on every calculation; a totals member the
+	// calculation sets only under a condition (tax_included, taxes, discount, charge…) must be
+	// cleared first, or the previous run's figure stays beside the new lines
+	c.Rule("C02-R11", "every totals member the calculation assigns is cleared by Totals.reset (shared with C01-R2)", 5)
+	{
+		sub := core.NewCtx("C01", c.Tier, c.Seed, c.P, c.VerifDir)
+		sub.Quiet = true
+		roundCoverage(sub, "C01-R2")
+		for _, o := range sub.Obligations() {
+			if o.Rule == "C01-R2" && strings.HasSuffix(o.Key, "#reset") {
+				c.ObAt("C02-R11", o.Key, o.Pos, o.OK, o.Msg)
+			}
+		}
+	}
 }
 
 func c02Matching(c *core.Ctx) {
@@ -962,7 +976,8 @@ func c02Included(c *core.Ctx) {
 // differing value.
 func c02MapEquality(c *core.Ctx) {
 	p := c.P
-	c.Rule("C02-R6", "Extensions.Equals is a two-way equality (equal lengths, then containment)", 2)
+	c.Rule("C02-R6", "the equalities the group identity is built from are two-way (Extensions.Equals: equal lengths, then containment; Percentage/Amount.Equals: Compare == 0)", 4)
+	defer numEqualsByCompare(c, "C02-R6")
 	fd := p.Func("tax", "Extensions", "Equals")
 	if fd == nil {
 		c.Ob("C02-R6", "UNRESOLVED:tax.Extensions.Equals", token.NoPos, false, "method not found")
